@@ -7,6 +7,7 @@ mod fam_geom;
 mod fam_nms;
 mod fam_store;
 mod fam_vote;
+mod sched;
 mod wire;
 
 use std::io::{BufRead, Write};
@@ -52,6 +53,7 @@ fn panic_class(p: &(dyn std::any::Any + Send)) -> String {
 
 fn main() {
     std::panic::set_hook(Box::new(|_| {}));
+    sched::install();
     let stdin = std::io::stdin();
     let stdout = std::io::stdout();
     let mut out = std::io::BufWriter::new(stdout.lock());
